@@ -236,6 +236,12 @@ def c04(ctx):
         spec_vs_impl(ctx, [(105, [a, b, Z, ONE, mt, m], 9, [a, b, Z, ONE, mt, m])
                            for a, b in pairs for m in mrts_grid(g)[:3] for mt in maxtau_grid(g)],
                      "directionality values == leader/follower definition")
+    big = big_tau_pairs(ctx)
+    ctx.corr([(rid, [a, b, Z, ONE, mt, m]) for a, b, mt, m in big for rid in (8, 9)], pair_nt)
+    spec_vs_impl(ctx, [(104, [a, b, Z, ONE, mt, m], 8, [a, b, Z, ONE, mt, m]) for a, b, mt, m in big],
+                 "order profile == leader/follower definition (max_tau above half the recording)")
+    spec_vs_impl(ctx, [(105, [a, b, Z, ONE, mt, m], 9, [a, b, Z, ONE, mt, m]) for a, b, mt, m in big],
+                 "directionality values == leader/follower definition (max_tau above half the recording)")
     lists, g = ctx.space.random_lists()
     lists = ctx.part(lists)
     cases = []
@@ -1638,6 +1644,16 @@ def c15(ctx):
                 ctx.violate("multivariate MRTS='auto' != explicit pooled threshold", name, [L], expected=ve, got=va)
             if not feq(v0, vn, 0.0):
                 ctx.violate("multivariate MRTS=0 != non-adaptive", name, [L], expected=vn, got=v0)
+            # with an index selection the code still pools the automatic threshold over the WHOLE list
+            # (model: ModelAuto.auto_pool_multi; this is known finding F10 for property C14)
+            if len(sts) >= 3 and name not in ("spike_directionality_values", "spike_directionality_matrix"):
+                sel = sorted(r.sample(range(len(sts)), 2))
+                vai = core.call_impl(lambda: q(lambda: f(sts, indices=sel, MRTS='auto')))
+                vei = core.call_impl(lambda: q(lambda: f(sts, indices=sel, MRTS=auto)))
+                ctx.check()
+                if not feq(vai, vei, 1e-12):
+                    ctx.violate("MRTS='auto' with indices: threshold is not the one pooled over the whole list "
+                                "(model auto_pool_multi no longer describes the code)", name, [L, sel], expected=vei, got=vai)
             if name in ("isi_distance", "spike_distance", "isi_distance_matrix", "spike_distance_matrix"):
                 w1 = core.call_impl(lambda: q(lambda: f(sts, MRTS=m1)))
                 w2 = core.call_impl(lambda: q(lambda: f(sts, MRTS=m2)))
@@ -1735,6 +1751,25 @@ def c16(ctx):
                     ctx.violate("enlarging max_tau (beyond half the recording) removes a per-spike coincidence",
                                 "coincidence_single", [a, b, Z, ONE, Fr(3, 4), m], expected=c1, got=c2, rid=7)
                     break
+    # max_tau must be honoured together with an averaging interval (scalar, multivariate, matrix)
+    icases = []
+    rnd_, g_ = ctx.space.random_pairs(n=300 if ctx.tier == "quick" else 4000)
+    for a, b in ctx.part(rnd_):
+        iv = intervals_for(r, g_, 1)[1]
+        mt = r.choice([Fr(1, 32), Fr(1, 16), Fr(1, 8)])
+        m = r.choice(mrts_grid(g_)[:3])
+        icases += [(56, [False, mt, m, iv, T(a), T(b)]), (66, [False, mt, m, iv, [T(a), T(b), T(a)], None]),
+                   (69, [False, mt, m, iv, [T(a), T(b), T(a)], None])]
+        # the bound itself on the interval value: only spikes inside the interval with a partner < max_tau can count
+        v = ctx.call(56, [False, mt, m, iv, T(a), T(b)])
+        ctx.check()
+        inside = [(x, 0) for x in a if iv[0] < x < iv[1]] + [(x, 1) for x in b if iv[0] < x < iv[1]]
+        if inside and isinstance(v, float):
+            ok_cnt = sum(1 for x, w in inside if any(abs(x - y) < mt for y in (b if w == 0 else a)))
+            if v > ok_cnt / len(inside) + 1e-12:
+                ctx.violate("SPIKE-Sync on an interval counts a pair >= max_tau apart", "spike_sync",
+                            [False, mt, m, iv, T(a), T(b)], expected="<= %d/%d" % (ok_cnt, len(inside)), got=v, rid=56)
+    ctx.corr(icases, lambda rid, a_: True)
     # None == 0 through the public API; the bound through the public API
     lists, g = ctx.space.random_lists(n=200 if ctx.tier == "quick" else 3000)
     lists = ctx.part(lists)
